@@ -5,6 +5,19 @@ HERE = os.path.dirname(os.path.dirname(os.path.abspath(__file__)))
 ids = [json.loads(l)["id"] for l in open(os.path.join(HERE, "properties.jsonl"))]
 
 CLAIMS = {
+ "C08": dict(
+   text="register and call_when_ready are proved per operation over the abstract state (registered components, listed "
+        "waiters) under the invariant 'no listed waiter is ready', for every registered subset of three components, every "
+        "dependency set (empty included) of up to two listed waiters plus the declared one, and callbacks that do nothing, "
+        "register a further component (chained, re-entrant) or raise: exactly the waiters ready at the fixpoint are called, "
+        "once each, each at a moment when all its components were registered; the rest stay listed in order, uncalled. "
+        "listen_to_dependencies wires (listeners with the component prefix, attributes, _all_dependencies_met) exactly once, "
+        "exactly when the last named component arrives, for every subset registered beforehand. goUp / deferrals: for every "
+        "placement of two deferrals (obtained before or during going-up, released before, during or after it) the events are "
+        "exactly [GoingUp, Up]; a deferral cannot be released twice; _quit raises [GoingDown, Down] once even when asked twice.",
+   note="all units bounded (3 component names, <= 3 waiters, 2 deferrals) and reported so; the history statement is the "
+        "induction over the per-operation contracts; quit()'s helper threads and the scheduler shutdown are callees / not modelled.",
+   ref="7/C08"),
  "C20": dict(
    text="Every step of the send path is proved to keep  wire ++ pending  (bytes accepted by the socket, then bytes queued "
         "behind them) extended by exactly the bytes handed over, for arbitrary message bytes and every per-call socket outcome "
